@@ -11,6 +11,7 @@ import (
 	"strconv"
 	"strings"
 	"sync"
+	"sync/atomic"
 	"testing"
 	"time"
 
@@ -166,6 +167,7 @@ type LScenario struct {
 	SlowCb  bool   `json:"slowCb"`  // the application's incoming callback takes time (pipeline backs up)
 	Partial bool   `json:"partial"` // the cause hits inside an inbound message
 	BlockCb bool   `json:"blockCb"` // the application's incoming callback blocks until the handler's context ends
+	ErrStop bool   `json:"errStop"` // the application's OnError callback stops the session at the first error ("on error: log out")
 	Cause2  string `json:"cause2"`  // a second cause shortly after the first ("" = none): overlapping terminations
 	GapMs   int    `json:"gapMs"`   // delay between the two causes
 	ErrDelayMs int `json:"errDelayMs"` // peer_close / peer_reset: the failing Read returns only after this delay
@@ -330,6 +332,14 @@ func RunLifecycle(t *testing.T, sc *LScenario, emit func(*LifeObs)) {
 			<-ready
 		}
 		quiesce()
+		if sc.ErrStop {
+			var stopped int32 // (not a sync.Once: the failed Logout of Stop is reported to this very callback, on the same goroutine)
+			s.OnError(func(error) {
+				if atomic.CompareAndSwapInt32(&stopped, 0, 1) {
+					_ = s.Stop()
+				}
+			})
+		}
 		s.OnChangeState(utils.EventDisconnect, note)
 		peerSeq := 0
 		now := func() string { return time.Now().UTC().Format("20060102-15:04:05.000") }
@@ -477,10 +487,20 @@ func RunLifecycle(t *testing.T, sc *LScenario, emit func(*LifeObs)) {
 		sendersDone := make(chan struct{})
 		go func() { sendersWg.Wait(); close(sendersDone) }()
 		postSend := make(chan struct{})
-		go func() { _ = s.Send(fixgen.NewMarketDataRequest().SetMDReqID("after")); close(postSend) }()
+		go func() {
+			if sc.ErrStop { // the later call is a Logout: its failed send is reported to the error callback, which stops the session
+				_ = s.Logout()
+			}
+			_ = s.Send(fixgen.NewMarketDataRequest().SetMDReqID("after"))
+			close(postSend)
+		}()
+		postWait := 400 * time.Millisecond
+		if sc.ErrStop {
+			postWait = 2 * time.Second
+		}
 		select {
 		case <-postSend:
-		case <-time.After(400 * time.Millisecond):
+		case <-time.After(postWait):
 		}
 		select {
 		case <-postSend:
